@@ -266,6 +266,18 @@ def r4(ctx: Ctx) -> None:
     for p, fs in fields.items():
         for fl in sorted(fs - allowed):
             ctx.report(f.where, f"placement-writes {p}.{fl}", f"spectral_layout modifies {fl} (only centres may change)", lineno=f.node.lineno)
+    # building the graph of the netlist writes the graph only: the nets (members, weights) and the modules are read
+    for q in ("Spectral._build_graph", "Spectral.__init__"):
+        fb = ctx.func(SPEC, q)
+        wrote = eff.fields.get(fb, {})
+        own = {"_adj", "_centers", "_fixed_modules", "_mass", "<elements>"}
+        ctx.site(fb.where, "graph construction writes only the graph fields of the placer", written={k: sorted(v) for k, v in wrote.items()})
+        for p_, fs in wrote.items():
+            for fl in sorted(fs - own):
+                if q.endswith("__init__") and fl.startswith("_") and p_ == "self" and fl not in ("_weight", "_modules", "_edges"):
+                    continue      # fields of the Netlist base constructor
+                ctx.report(fb.where, f"graph-build-writes {p_}.{fl}", f"{q} modifies {fl} while building the graph: the nets / modules of the netlist are "
+                           "not left unchanged (e.g. a net weight rescaled in place)", lineno=fb.node.lineno)
     r = ctx.func(MODULE, "Module.recenter_rectangles")
     cr = canon_function(r, ctx.model)
     from framelint.canon import fold_sums
